@@ -17,6 +17,7 @@ Variables are integers: 0..3 are the four global variables ("a".."d"), ≥ 4 are
 """
 import itertools
 import math
+import os
 from collections import OrderedDict
 from fractions import Fraction
 
@@ -218,7 +219,7 @@ def build_funsor(case):
             if not e[2]:
                 return x
             ax = dict(case["leaves"][e[1]]["axes"])
-            return x(**{vname(k): ixf(ix, ax[k]) for k, ix in e[2]})
+            return x(**{(pn if in_cat.get(e[1]) == k else vname(k)): ixf(ix, ax[k]) for k, ix in e[2]})
         if t == "add":
             return sum_op(go(e[1]), go(e[2])) if sr != "add-mul" else go(e[1]) + go(e[2])
         if t == "mul":
@@ -228,7 +229,6 @@ def build_funsor(case):
         if t == "prod":
             return go(e[2]).reduce(prod_op, frozenset(vname(v) for v in e[1]))
         if t == "cat":
-            pn = case.get("cat_part_name")
             parts = tuple(leaves[l] for l in e[2])
             if pn is None:
                 return Cat(vname(e[1]), parts)
@@ -572,9 +572,8 @@ def gen_case(rng, tier="quick", stream="clean"):
         c = _gen_raw(rng, stream)
         if c is None:
             continue
-        ok = good(c)
-        viol = violated(c)
-        if stream == "clean" and ok:
+        viol = violated(c, raw=True)
+        if stream == "clean" and not (viol - FOLDED):
             return c
         if stream != "clean" and viol == {stream}:
             return c
@@ -685,7 +684,7 @@ def _gen_raw(rng, stream):
         a, b = nodes[i], nodes[j]
         p_add = {"clean": 0.25, "add-broadcast": 0.6}.get(stream, 0.1)
         op = "add" if rng.random() < p_add else "mul"
-        if op == "add" and stream == "clean" and fv(a) != fv(b):
+        if op == "add" and stream == "clean" and "add-broadcast" not in FOLDED and fv(a) != fv(b):
             op = "mul"
         new = maybe_reduce((op, a, b), 0.35)
         nodes = [n for t, n in enumerate(nodes) if t not in (i, j)] + [new]
@@ -717,7 +716,8 @@ def _gen_raw(rng, stream):
     mark(root, False)
     for lid, l in leaves.items():
         shape = tuple(s for _, s in l["axes"])
-        l["data"] = gen_data(rng, shape, nonzero=(lid in under and stream != "plate-zero"))
+        l["data"] = gen_data(rng, shape, nonzero=(lid in under and stream != "plate-zero"
+                                                  and not (stream == "clean" and "plate-zero" in FOLDED)))
     if stream == "plate-zero" and under:
         lid = rng.choice(sorted(under))
         d = leaves[lid]["data"]
@@ -727,7 +727,8 @@ def _gen_raw(rng, stream):
     sr = rng.choice(["add-mul", "add-mul", "logaddexp-add"])
     opt = rng.choice([None, None, "tape", "lazy"])
     case = dict(sz=sz, leaves=leaves, expr=root, sr=sr, opt=opt)
-    if stream == "cat-part-name":
+    if stream == "cat-part-name" or (stream == "clean" and "cat-part-name" in FOLDED and rng.random() < 0.5
+                                     and any(t[0] == "cat" for t in subterms(root))):
         case["cat_part_name"] = "p"
     return case
 
@@ -741,7 +742,19 @@ def subterms(e):
         yield from subterms(e[2])
 
 
-def violated(case):
+# Regions (dedicated-stream names) folded into the clean stream: permanently once the corresponding
+# fix: commit is in /repo, temporarily through C11_FOLD=a,b when validating a candidate patch.
+FOLDED = set(filter(None, os.environ.get("C11_FOLD", "").split(",")))
+
+
+def violated(case, raw=False):
+    """Side conditions the case violates.  raw=True: all of them (what the Lean `Good` and the pinned
+    implementation need); raw=False: minus the regions folded into the clean stream."""
+    out = _violated(case)
+    return out if raw else out - FOLDED
+
+
+def _violated(case):
     """Set of side conditions of `adjoint_sound` (Props/C11.lean: `Good`) that the case violates."""
     leaves = case["leaves"]
     root = case["expr"]
@@ -954,6 +967,7 @@ def check_case(ctx, case, use_driver=True, gate=True, label="clean"):
     else:
         case2, keys = case, r["leaves"]
     sz2 = case2["sz"]
+    lean_good = not (violated(case2, raw=True) - {"opt-rebinding", "cat-part-name", "tape-key-collision"})
     # 3. the Lean model and spec on the same term
     model = None
     if use_driver:
@@ -982,7 +996,7 @@ def check_case(ctx, case, use_driver=True, gate=True, label="clean"):
             if not all(same_num(a, b) for a, b in zip(m["dv"], want)):
                 ctx.infra_errors.append(f"Lean spec `deriv` disagrees with the Python oracle on {case_wire(case2)[:400]}")
                 return dict(status="infra")
-            if gate and not all(same_num(a, b) for a, b in zip(m["fs"], m["dv"])):
+            if gate and lean_good and not all(same_num(a, b) for a, b in zip(m["fs"], m["dv"])):
                 # run-time echo of adjoint_sound on an input that satisfies its hypotheses
                 ctx.infra_errors.append(f"Lean model `backward` disagrees with its spec on a Good input: {case_wire(case2)[:400]}")
                 return dict(status="infra")
@@ -1297,8 +1311,12 @@ def correspond(ctx):
     for _ in range(1 if ctx.tier == "quick" else 6):
         aliasing_block(ctx)
     n = 700 if ctx.tier == "quick" else 12000
-    for _ in range(n):
-        c = gen_case(ctx.rng, ctx.tier, stream="clean")
+    for it in range(n):
+        if "tape-key-collision" in FOLDED and it % 10 == 0:
+            c = gen_collision(ctx.rng)
+            c["opt"] = None
+        else:
+            c = gen_case(ctx.rng, ctx.tier, stream="clean")
         nocc = count_shape(ctx, c, "clean")
         res = check_case(ctx, c, use_driver=have_driver, label="clean")
         ctx.count(f"clean:{res['status']}")
